@@ -109,7 +109,7 @@ Definition fam_xcbc_vaes : family :=
 (* AES-CCM: include/mb_mgr_aes_ccm_submit_flush_sse.inc, avx2_t1/..ccm_auth_submit_flush_x8_avx.asm
    ("Clear digest (in memory for CBC IV), counter block 0 and AAD" + keys pointer) *)
 Definition fam_ccm_x8 : family :=
-  [ F "args.keys"    T T  T T T  T;
+  [ F "args.keys"    T T  T T T  N;
     F "args.IV"      T T  T T T  T;
     F "init_blocks"  T N  T T T  T ].
 (* avx512_t2/..ccm_auth_submit_flush_x16_vaes_avx512.asm: CLEAR_IV_KEYS_BLK0_IN_NULL_LANES *)
